@@ -35,6 +35,19 @@ func TestMain(m *testing.M) { world.Main(m) }
 // worldLog is the handler index of the application-level EventLog that world.New() subscribes.
 const worldLog = -1
 
+// A subscription is a pair (level, handler). In the log the subscription of handler object k on
+// the application level is index k and its subscription on the core level (build-tag hook
+// spine.VerifSubscribe; what a local device is on the bus) is index coreBase+k: two subscribers
+// for the oracle, one object for the bus.
+const coreBase = 100
+
+func vh(h int, core bool) int {
+	if core {
+		return coreBase + h
+	}
+	return h
+}
+
 type opKind uint8
 
 const (
@@ -280,11 +293,20 @@ func judge(t world.TB, handlers []int, ops []busOp, pubs []pubRec, dels []delive
 			detail := func() string {
 				return fmt.Sprintf("\n publication: %s\n operations of %s: %s\n oracle: %s, deliveries: %d", showPub(p), hname(h), showOps(opsOf[h]), v, n)
 			}
+			if c := vh(h, true); (n > 1 || (n == 1 && v == mustNot)) && h >= 0 && h < coreBase && count[hk{c, p.Key}] == 0 && classify(opsOf[c], p) == must {
+				// the level of a delivery is told by the goroutine: the delivery that is missing on the
+				// publishing goroutine is one of those counted here
+				world.Fail(t, "C15/core-level-handler-off-publishing-goroutine/"+shape, "event %s: handler object %s is subscribed on the core level (%s) and was not called on the publishing goroutine %d; away from it it handled the event %d times%s", p.Key, hname(h), showOps(opsOf[c]), p.Gid, n, detail())
+			}
 			if n > 1 {
 				world.Fail(t, "C15/delivered-twice/"+shape, "event %s reached handler %s %d times%s", p.Key, hname(h), n, detail())
 			}
 			if v == must && n == 0 {
 				world.Fail(t, "C15/not-delivered/"+shape, "event %s never reached handler %s, which was subscribed during the whole publication%s", p.Key, hname(h), detail())
+			}
+			if h >= coreBase && n > 0 && len(opsOf[h]) == 0 {
+				// handled on the publishing goroutine although the object was never subscribed on the core level
+				world.Fail(t, "C15/application-handler-synchronous/"+p.shape(), "event %s was handled by handler %s on the publishing goroutine %d, and that handler object was never subscribed on the core level%s", p.Key, hname(h-coreBase), p.Gid, detail())
 			}
 			if v == mustNot && n > 0 {
 				if len(opsOf[h]) == 0 {
@@ -292,7 +314,7 @@ func judge(t world.TB, handlers []int, ops []busOp, pubs []pubRec, dels []delive
 				}
 				world.Fail(t, "C15/delivered-after-unsubscribe/"+shape, "event %s reached handler %s although its unsubscription had returned before the publication began%s", p.Key, hname(h), detail())
 			}
-			if p.Gid != 0 {
+			if p.Gid != 0 && h < coreBase {
 				for _, g := range gids[hk{h, p.Key}] {
 					if g == p.Gid {
 						world.Fail(t, "C15/application-handler-synchronous/"+p.shape(), "event %s was handled by application handler %s on the publishing goroutine %d%s", p.Key, hname(h), g, detail())
@@ -316,6 +338,9 @@ func handlerShape(ops []busOp) string {
 func hname(h int) string {
 	if h == worldLog {
 		return "world-log"
+	}
+	if h >= coreBase {
+		return fmt.Sprintf("h%d@core", h-coreBase)
 	}
 	return fmt.Sprintf("h%d", h)
 }
@@ -459,13 +484,14 @@ func stuck(t world.TB, what string) {
 type action struct {
 	Kind string // sub | unsub | publish | call | wait
 	H    int    // target handler of sub / unsub
+	Core bool   // sub / unsub: on the core level
 	V    int    // variant of call
 }
 
 func (a action) String() string {
 	switch a.Kind {
 	case "sub", "unsub":
-		return fmt.Sprintf("%s(h%d)", a.Kind, a.H)
+		return fmt.Sprintf("%s(%s)", a.Kind, hname(vh(a.H, a.Core)))
 	case "call":
 		return fmt.Sprintf("call(%d)", a.V)
 	}
@@ -600,16 +626,29 @@ func (b *bench) settle(t world.TB) {
 	}
 }
 
-func (b *bench) subscribe(h int, ctx string) {
+func (b *bench) subscribe(h int, ctx string) { b.subscribeAt(h, false, ctx) }
+
+func (b *bench) unsubscribe(h int, ctx string) { b.unsubscribeAt(h, false, ctx) }
+
+// subscribeAt: application level through the public API, core level through the build-tag hook.
+func (b *bench) subscribeAt(h int, core bool, ctx string) {
 	s := world.Stamp()
-	_ = spine.Events.Subscribe(b.hs[h])
-	b.rec.addOp(busOp{H: h, Kind: kSub, Start: s, End: world.Stamp(), Ctx: ctx})
+	if core {
+		_ = spine.VerifSubscribe(api.EventHandlerLevelCore, b.hs[h])
+	} else {
+		_ = spine.Events.Subscribe(b.hs[h])
+	}
+	b.rec.addOp(busOp{H: vh(h, core), Kind: kSub, Start: s, End: world.Stamp(), Ctx: ctx})
 }
 
-func (b *bench) unsubscribe(h int, ctx string) {
+func (b *bench) unsubscribeAt(h int, core bool, ctx string) {
 	s := world.Stamp()
-	_ = spine.Events.Unsubscribe(b.hs[h])
-	b.rec.addOp(busOp{H: h, Kind: kUnsub, Start: s, End: world.Stamp(), Ctx: ctx})
+	if core {
+		_ = spine.VerifUnsubscribe(api.EventHandlerLevelCore, b.hs[h])
+	} else {
+		_ = spine.Events.Unsubscribe(b.hs[h])
+	}
+	b.rec.addOp(busOp{H: vh(h, core), Kind: kUnsub, Start: s, End: world.Stamp(), Ctx: ctx})
 }
 
 func tagKey(tag int) string { return fmt.Sprintf("e%d", tag) }
@@ -667,6 +706,13 @@ func (h *handler) HandleEvent(p api.EventPayload) {
 	d := delivery{H: m.idx, At: at, Gid: gid()}
 	var ev *evt
 	d.Key, ev = identify(p)
+	// core level handlers are called by Publish itself, application level handlers on a goroutine
+	// of their own: an event of the harness handled on the goroutine that published it is a
+	// delivery to the object's core level subscription
+	onCore := ev != nil && d.Gid == ev.gid
+	if onCore {
+		d.H = vh(m.idx, true)
+	}
 	pick := 0
 	if ev != nil {
 		pick = ev.root + ev.depth
@@ -685,14 +731,19 @@ func (h *handler) HandleEvent(p api.EventPayload) {
 	if len(m.scripts) == 0 {
 		return
 	}
-	ctx := fmt.Sprintf("handler h%d", m.idx)
+	ctx := "handler " + hname(d.H)
 	for _, a := range m.scripts[pick%len(m.scripts)] {
 		switch a.Kind {
 		case "sub":
-			b.subscribe(a.H, ctx)
+			b.subscribeAt(a.H, a.Core, ctx)
 		case "unsub":
-			b.unsubscribe(a.H, ctx)
+			b.unsubscribeAt(a.H, a.Core, ctx)
 		case "publish":
+			if onCore {
+				// Publish dispatches one event at a time and core level handlers run inside the
+				// dispatch: publishing from there is not among the things the statement allows
+				continue
+			}
 			if ev == nil {
 				b.publish(1000+pick, 1, ctx, true)
 			} else if ev.depth == 0 {
@@ -765,6 +816,15 @@ func (b *bench) handlerIndexes() []int {
 	hs := []int{worldLog}
 	for i := range b.hs {
 		hs = append(hs, i)
+	}
+	return hs
+}
+
+// subscriberIndexes: the application level and the core level subscription of every handler object.
+func (b *bench) subscriberIndexes() []int {
+	hs := b.handlerIndexes()
+	for i := range b.hs {
+		hs = append(hs, vh(i, true))
 	}
 	return hs
 }
